@@ -61,7 +61,14 @@ func signedImportNoSize(re *regexp.Regexp, input string) (*BMNumber, error) {
 }
 
 func (d Signed) ExportString(n *BMNumber) (string, error) {
-	return "", errors.New("not implemented")
+	if n == nil || len(n.number) != 8 {
+		return "", errors.New("signed number cannot be exported")
+	}
+	var s uint64
+	for i := 0; i < 8; i++ {
+		s |= uint64(n.number[i]) << (8 * uint(i))
+	}
+	return "0s" + strconv.FormatInt(int64(s), 10), nil
 }
 
 func (d Signed) ShowInstructions() map[string]string {
